@@ -19,6 +19,9 @@ EXTENDS MatrixCache, C03TraceCommon, TraceLib
 VARIABLES l, cfgLine, geoms, st, bad
 
 NoObj == [none |-> TRUE]
+Impls == {"RayTracing", "Interpolation"}
+\* "ProjMatrixByBinUsingRayTracing sadly doesn't support shifted x/y origin yet" (more than 0.05 mm; 2^-12 mm units)
+MustRefuse(geo) == geo.impl = "RayTracing" /\ (Abs(geo.ox) > 205 \/ Abs(geo.oy) > 205)
 (* ---------------- rows: fixed point 2^-20, "up to floating-point rounding" --- *)
 \* |a - b| <= RowAbsTol + max(a,b) * 2^-RowRelShift : 6e-5 absolute (single-precision ray tracing of
 \* path lengths of order 1..10) plus 2^-12 relative; changes of interest move elements by > 1e-2
@@ -52,12 +55,17 @@ AllInsideZ(geo, row) == \A i \in 1..Len(row) : InsideZ(geo, row[i])
 (* column by rounding; such bins are outside the property.  Decided from the   *)
 (* logged s / voxel size (2^-12) of the rays, never from the rows.             *)
 RayPos2n(s, ds, ntl, j) == 2 * ntl * s - ds * (ntl - 1) + 2 * j * ds      \* position of ray j, times 2*ntl
+\* use_actual_detector_boundaries is honoured only for data without mashing and axial compression;
+\* the rays of one bin are then twice as far apart ("the resulting strip is twice as wide")
+UadbEff(geo) == GridOf(geo).uadb
+RaySpacing(geo, ds) == IF UadbEff(geo) THEN 2 * ds ELSE ds
 OnBoundary(u, unit) == LET f == Mod(u + unit \div 2, unit) IN f <= unit \div 1024 \/ f >= unit - unit \div 1024
 Tie(geo, rf) ==
   LET cc == CfgOf(geo)  b == BinOfList(rf.b)  nvw == NumViews(cc)  unit == 4096 * 2 * geo.ntl IN
+  /\ geo.impl = "RayTracing"            \* the interpolating matrix is continuous in s: no ties
   /\ PhiOffsetZero(cc, GridOf(geo))
-  /\ \/ b.view = 0 /\ \E j \in 0..(geo.ntl - 1) : OnBoundary(RayPos2n(rf.sx, rf.dsx, geo.ntl, j), unit)
-     \/ 2 * b.view = nvw /\ \E j \in 0..(geo.ntl - 1) : OnBoundary(RayPos2n(rf.sy, rf.dsy, geo.ntl, j), unit)
+  /\ \/ b.view = 0 /\ \E j \in 0..(geo.ntl - 1) : OnBoundary(RayPos2n(rf.sx, RaySpacing(geo, rf.dsx), geo.ntl, j), unit)
+     \/ 2 * b.view = nvw /\ \E j \in 0..(geo.ntl - 1) : OnBoundary(RayPos2n(rf.sy, RaySpacing(geo, rf.dsy), geo.ntl, j), unit)
 
 (* ---------------- decoding ---------------------------------------------------- *)
 ObsHook(h) == IF h[1] = 3 THEN << "clear" >>
@@ -72,25 +80,33 @@ HasObj == "none" \notin DOMAIN st
 Res(ok, cls, s) == [ok |-> ok, cls |-> cls, st |-> s]
 RowClass(geo, row, rest) ==
   IF rest /\ RowSound(geo, row) THEN (IF AllInsideZ(geo, row) THEN "ok" ELSE "C03-zoutside") ELSE "new"
+\* known finding C03-uadb: with use_actual_detector_boundaries the matrix traces the chord between the
+\* detector centres while the symmetries relate nominal lines; for the bins where the two disagree
+\* (~S2det, decided per bin by the specification) the derived row need not be the direct row
+UadbExempt(geo, b) == UadbEff(geo) /\ ~S2det(st.c, st.g, st.esw, b)
 Outcome(r) ==
   CASE r.e = "Ref" ->
          IF r.gid \in 1..Len(geoms) /\ InRange(CfgOf(geoms[r.gid]), BinOfList(r.b))
          THEN LET cls == RowClass(geoms[r.gid], r.row, TRUE) IN Res(cls = "ok", cls, st)
          ELSE Res(FALSE, "new", st)
-    [] r.e = "New" -> Res(TRUE, "ok", NewMatrix(SwOf(r.sw), r.cacheOn, r.basicOnly))
+    [] r.e = "New" -> Res(r.impl \in Impls, "new", NewMatrix(r.impl, SwOf(r.sw), r.cacheOn, r.basicOnly))
+    [] r.e = "Parse" -> IF HasObj /\ st.impl = "Interpolation" THEN Res(~r.failed, "new", DoParse(st, SwOf(r.sw), r.cacheOn, r.basicOnly).st)
+                        ELSE Res(FALSE, "new", st)
     [] r.e = "SetSw" -> IF HasObj THEN Res(TRUE, "ok", DoSetSwitches(st, SwOf(r.sw)).st) ELSE Res(FALSE, "new", st)
     [] r.e = "EnableCache" -> IF HasObj THEN Res(TRUE, "ok", DoEnableCache(st, r.v).st) ELSE Res(FALSE, "new", st)
     [] r.e = "StoreBasic" -> IF HasObj THEN Res(TRUE, "ok", DoStoreOnlyBasic(st, r.v).st) ELSE Res(FALSE, "new", st)
     [] r.e = "Clear" ->
          IF HasObj THEN LET o == DoClear(st) IN Res(ObsHooks(r.hooks) = o.hooks, "new", o.st) ELSE Res(FALSE, "new", st)
     [] r.e = "SetUp" ->
-         IF HasObj /\ r.gid \in 1..Len(geoms)
-         THEN LET geo == geoms[r.gid]
-                  o == DoSetUp(st, GenOf(r.gid), CfgOf(geo), GridOf(geo))
-              IN Res(~r.err /\ ObsHooks(r.hooks) = o.hooks /\ Len(r.eff) = 5 /\ SwOf(r.eff) = o.st.esw, "new", o.st)
+         IF HasObj /\ r.gid \in 1..Len(geoms) /\ geoms[r.gid].impl = st.impl
+         THEN LET geo == geoms[r.gid] IN
+              IF MustRefuse(geo)
+              THEN LET o == DoSetUpRefused(st) IN Res(r.err /\ ObsHooks(r.hooks) = o.hooks, "new", o.st)
+              ELSE LET o == DoSetUp(st, GenOf(r.gid), CfgOf(geo), GridOf(geo))
+                   IN Res(~r.err /\ ObsHooks(r.hooks) = o.hooks /\ Len(r.eff) = 5 /\ SwOf(r.eff) = o.st.esw, "new", o.st)
          ELSE Res(FALSE, "new", st)
     [] r.e = "Get" ->
-         IF HasObj /\ st.gen # 0 /\ InRange(st.c, BinOfList(r.b))
+         IF HasObj /\ st.gen >= 1 /\ InRange(st.c, BinOfList(r.b))
          THEN LET b == BinOfList(r.b)
                   o == DoGet(st, b)
                   geo == geoms[st.gen]
@@ -99,7 +115,10 @@ Outcome(r) ==
                  ELSE LET rf == TraceLog[cfgLine + r.ref]
                           refOk == /\ r.ref >= 1 /\ cfgLine + r.ref <= Len(TraceLog) /\ rf.e = "Ref"
                                    /\ rf.gid \in 1..Len(geoms) /\ geoms[rf.gid] = geo /\ rf.b = r.b
-                          cls == RowClass(geo, r.row, hooksOk /\ ~r.err /\ refOk /\ (Tie(geo, rf) \/ RowEq(r.row, rf.row)))
+                          rest == hooksOk /\ ~r.err /\ refOk
+                          cls == IF rest /\ UadbExempt(geo, b) /\ ~RowEq(r.row, rf.row)
+                                 THEN (IF RowSound(geo, r.row) THEN "C03-uadb" ELSE "new")
+                                 ELSE RowClass(geo, r.row, rest /\ (Tie(geo, rf) \/ RowEq(r.row, rf.row)))
                       IN Res(cls = "ok", cls, o.st)
          ELSE Res(FALSE, "new", st)
     [] OTHER -> Res(FALSE, "new", st)
@@ -113,7 +132,7 @@ Next == /\ l <= Len(TraceLog)
            ELSE IF r.e = "Geom" THEN
              /\ UNCHANGED <<cfgLine, st>>
              /\ geoms' = Append(geoms, GeoOf(r))
-             /\ bad' = IF r.gid = Len(geoms) + 1 /\ GeometryOk(r) /\ r.geom = "Cylindrical" /\ r.ntl >= 1 THEN bad ELSE Note("new")
+             /\ bad' = IF r.gid = Len(geoms) + 1 /\ GeometryOk(r) /\ r.geom = "Cylindrical" /\ r.ntl >= 1 /\ r.impl \in Impls THEN bad ELSE Note("new")
            ELSE LET o == Outcome(r) IN
              /\ UNCHANGED <<cfgLine, geoms>>
              /\ st' = o.st
